@@ -5,7 +5,6 @@ import random
 from pyvc.bounded import Harness, Failure
 from spec import pddl_sem as PS, semantics as SEM, gen as G, repo_api as RA, sexp as SX, views as V
 
-CONTRACTS = {}
 LEVEL = "other"
 EXPLANATION = ("bounded stand-in: successor states computed by Operator.apply compared with spec succ() for generated effect bodies "
                "(add/delete, numeric updates, when, forall-when over a type and its subtypes) on every state over the atoms the action touches, "
@@ -143,3 +142,55 @@ class Refusal(Harness):
 
 
 HARNESSES = [Successors(), Refusal()]
+
+# ---- deductive: the control skeleton of Operator.apply — refusal guard, freshness of the successor, strict frame --------------------
+import z3
+from pyvc.core import Val
+from pyvc.sorts import I, B
+OP = "models.pddl_operator:Operator."
+_ST = ("ref", "State")
+_OPR = ("ref", "Operator")
+_app = z3.Function("op_applicable", I, I, B)          # the operator's precondition holds in the state (C02, bounded)
+_HK = {"op_applicable": lambda interp, st, a: Val(_app(a[0].t, a[1].t), "bool")}
+CONTRACTS = {
+    OP + "ground": dict(prop="C03", assumed=True, params={"self": _OPR}, returns="none", ensures=["self.grounded"], raises={"KeyError": "True"},
+                        modifies=["Operator.grounded_preconditions[self]", "Operator.grounded_effects[self]", "Operator.grounded[self]"]),
+    OP + "is_applicable": dict(prop="C03", assumed=True, params={"self": _OPR, "state": _ST}, returns="bool",
+                               ensures=["result == op_applicable(self, state)"], raises={"KeyError": "True"},
+                               modifies=["Operator.grounded_preconditions[self]", "Operator.grounded_effects[self]", "Operator.grounded[self]"], spec_hooks=_HK),
+    "models.pddl_state:State.copy": dict(prop="C03", assumed=True, params={"self": _ST}, returns=_ST,
+                                         ensures=["fresh(result)", "fresh(result.state_predicates)", "fresh(result.state_fluents)"], raises={}, modifies=[]),
+    "models.grounded_effect:GroundedEffect.antecedents_hold": dict(
+        prop="C03", assumed=True, params={"self": ("ref", "GroundedEffect"), "state": _ST, "allow_inapplicable_actions": "bool"}, returns="bool",
+        ensures=[], raises={"KeyError": "True"}, modifies=[]),
+    "models.grounded_effect:GroundedEffect.apply": dict(
+        prop="C03", assumed=True, params={"self": ("ref", "GroundedEffect"), "state": _ST, "previous_state": _ST}, optional=("previous_state",),
+        returns="none", ensures=[], raises={"KeyError": "True", "ZeroDivisionError": "True"}, modifies=[]),     # writes inside `state`'s own (fresh) containers only
+    OP + "_apply_universal_effects": dict(prop="C03", assumed=True, params={"self": _OPR, "previous_state": _ST, "current_state": _ST}, returns="none",
+                                          ensures=[], raises={"KeyError": "True", "ZeroDivisionError": "True"}, modifies=[]),
+    OP + "apply": dict(
+        prop="C03", params={"self": _OPR, "previous_state": _ST, "allow_inapplicable_actions": "bool", "skip_validation": "bool"},
+        locals={"new_state": _ST}, returns=_ST,
+        requires=["allocated(previous_state)", "allocated(self.grounded_effects)"],
+        ensures=[
+            # the successor is a new object, never the input state, and is not an initial state
+            "fresh(result)", "result != previous_state", "not result.is_init",
+            # the input state object is not written: same containers, same flag
+            "previous_state.is_init == old(previous_state.is_init)", "previous_state.state_predicates == old(previous_state.state_predicates)",
+            "previous_state.state_fluents == old(previous_state.state_fluents)",
+            # a normal return means: applicable, or explicitly allowed / validation skipped
+            "op_applicable(self, previous_state) or allow_inapplicable_actions or skip_validation"],
+        # refusal: ValueError exactly when the precondition is false and the caller did not opt out
+        raises={"ValueError": "not op_applicable(self, previous_state) and not allow_inapplicable_actions and not skip_validation",
+                "KeyError": "True", "ZeroDivisionError": "True"},
+        must_raise=["not op_applicable(self, previous_state) and not allow_inapplicable_actions and not skip_validation"],
+        modifies=["Operator.grounded_preconditions[self]", "Operator.grounded_effects[self]", "Operator.grounded[self]"],
+        calls={"self.ground": OP + "ground", "self.is_applicable": OP + "is_applicable", "State.copy": "models.pddl_state:State.copy",
+               "GroundedEffect.antecedents_hold": "models.grounded_effect:GroundedEffect.antecedents_hold",
+               "GroundedEffect.apply": "models.grounded_effect:GroundedEffect.apply", "self._apply_universal_effects": OP + "_apply_universal_effects"},
+        loops={0: dict(invariants=["fresh(new_state)", "not new_state.is_init", "new_state != previous_state",
+                                   "previous_state.is_init == old(previous_state.is_init)",
+                                   "previous_state.state_predicates == old(previous_state.state_predicates)",
+                                   "previous_state.state_fluents == old(previous_state.state_fluents)"], modifies=[])},
+        spec_hooks=_HK),
+}
